@@ -8,6 +8,7 @@ import (
 	"fmt"
 	"os"
 	"strings"
+	"sync"
 	"time"
 
 	"golang.org/x/tools/go/packages"
@@ -30,6 +31,7 @@ type RunSpec struct {
 	CoverModels bool   `json:"cover_models"`
 	DumpSMT     string `json:"dump_smt"`
 	Solver      string `json:"solver"`
+	AbstractTime bool  `json:"abstract_time"`
 }
 
 type Spec struct {
@@ -127,13 +129,20 @@ func main() {
 		}
 		models[k] = f
 	}
-	for _, r := range spec.Runs {
+	out.Results = make([]*HarnessResult, len(spec.Runs))
+	slots := spec.Workers
+	if slots <= 0 {
+		slots = 8
+	}
+	sem := make(chan struct{}, slots)
+	var wg sync.WaitGroup
+	for i, r := range spec.Runs {
 		h := findFn(r.Pkg, r.Func)
 		if h == nil {
 			fail(out, spec.Out, "harness not found: "+r.Pkg+"."+r.Func)
 		}
 		c := &Config{MaxSteps: 2000000, Unwind: 64, MaxMakeSlice: 64, StubPkgs: spec.StubPkgs, RealPkgs: spec.RealPkgs,
-			InitPkgs: spec.InitPkgs, ModelFor: models, Workers: spec.Workers, SolverBin: spec.Solver,
+			InitPkgs: spec.InitPkgs, ModelFor: models, Workers: slots, SolverBin: spec.Solver,
 			SolverTimeoutMs: spec.TimeoutMs, Seed: spec.Seed, MaxPreempt: 2, MapOrderAll: true}
 		if r.Unwind > 0 {
 			c.Unwind = r.Unwind
@@ -160,11 +169,9 @@ func main() {
 		c.AllowPanic = r.AllowPanic
 		c.CoverModels = r.CoverModels
 		c.DumpSMT = r.DumpSMT
+		c.AbstractTime = r.AbstractTime
 		if r.Preempt > 0 {
 			c.MaxPreempt = r.Preempt
-		}
-		if c.Workers <= 0 {
-			c.Workers = 8
 		}
 		if c.SolverBin == "" {
 			c.SolverBin = "z3-new"
@@ -172,11 +179,16 @@ func main() {
 		if c.SolverTimeoutMs <= 0 {
 			c.SolverTimeoutMs = 60000
 		}
-		e := &Explorer{prog: prog, cfg: c, harness: h}
-		res := e.Run()
-		out.Results = append(out.Results, res)
-		fmt.Fprintf(os.Stderr, "[engine] %s: paths=%d ends=%v violations=%d complete=%v queries=%d wall=%.1fs\n",
-			r.Func, res.Paths, res.Ends, len(res.Violations), res.Complete, res.Queries, res.WallSec)
+		e := &Explorer{prog: prog, cfg: c, harness: h, sem: sem}
+		wg.Add(1)
+		go func(i int, r RunSpec, e *Explorer) {
+			defer wg.Done()
+			res := e.Run()
+			out.Results[i] = res
+			fmt.Fprintf(os.Stderr, "[engine] %s: paths=%d ends=%v violations=%d complete=%v queries=%d wall=%.1fs\n",
+				r.Func, res.Paths, res.Ends, len(res.Violations), res.Complete, res.Queries, res.WallSec)
+		}(i, r, e)
 	}
+	wg.Wait()
 	writeJSON(spec.Out, out)
 }
